@@ -19,10 +19,10 @@ static void M___cxa_end_catch(void) { verif_end_catch(); }
 static void M___cxa_rethrow(void) { verif_rethrow(); }
 #endif
 #ifdef USES___cxa_guard_acquire
-static s32 M___cxa_guard_acquire(void *g) { return *(u8 *)g == 0; }
+static s32 M___cxa_guard_acquire(void *g) { if (*(u8 *)g == 0) { verif_guard_depth++; return 1; } return 0; }
 #endif
 #ifdef USES___cxa_guard_release
-static void M___cxa_guard_release(void *g) { *(u8 *)g = 1; }
+static void M___cxa_guard_release(void *g) { *(u8 *)g = 1; if (verif_guard_depth > 0) verif_guard_depth--; }
 #endif
 #ifdef USES___cxa_guard_abort
 static void M___cxa_guard_abort(void *g) { (void)g; }
